@@ -2,6 +2,7 @@ package main
 
 import (
 	"fmt"
+	"sync/atomic"
 	"time"
 
 	cache "github.com/fufuok/cache"
@@ -73,12 +74,12 @@ type mapAd struct {
 	ks *keyspace[string]
 }
 
-func (a *mapAd) Name() string                { return "Map" }
-func (a *mapAd) Zero() any                   { return nil }
-func (a *mapAd) Raw() any                    { return a.m }
-func (a *mapAd) BucketOf(k int) int          { return cache.VerifBucketIndex(a.m, a.ks.keys[k]) }
-func (a *mapAd) Load(k int) (any, bool)      { return a.m.Load(a.ks.keys[k]) }
-func (a *mapAd) Store(k int, v any)          { a.m.Store(a.ks.keys[k], v) }
+func (a *mapAd) Name() string                          { return "Map" }
+func (a *mapAd) Zero() any                             { return nil }
+func (a *mapAd) Raw() any                              { return a.m }
+func (a *mapAd) BucketOf(k int) int                    { return cache.VerifBucketIndex(a.m, a.ks.keys[k]) }
+func (a *mapAd) Load(k int) (any, bool)                { return a.m.Load(a.ks.keys[k]) }
+func (a *mapAd) Store(k int, v any)                    { a.m.Store(a.ks.keys[k], v) }
 func (a *mapAd) LoadOrStore(k int, v any) (any, bool)  { return a.m.LoadOrStore(a.ks.keys[k], v) }
 func (a *mapAd) LoadAndStore(k int, v any) (any, bool) { return a.m.LoadAndStore(a.ks.keys[k], v) }
 func (a *mapAd) LoadOrCompute(k int, fn func() any) (any, bool) {
@@ -225,6 +226,8 @@ func newMap(sp mapSpec) mapAPI {
 		return newMapOfAd[int, val](sp, mkInt, inVal, outVal, val{})
 	case "MapOf[skey,val]":
 		return newMapOfAd[skey, val](sp, mkSkey, inVal, outVal, val{})
+	case "MapOf[int,*payload]":
+		return newMapOfAd[int, *payload](sp, mkInt, inPayload, outPayload, nil)
 	}
 	panic("unknown map flavor " + sp.Flavor)
 }
@@ -280,15 +283,15 @@ var cacheFlavors = []string{"Cache", "CacheOf[string,any]", "CacheOf[int,val]", 
 type cacheAd struct {
 	c       cache.Cache
 	ks      *keyspace[string]
-	unknown int
+	unknown int64
 }
 
-func (a *cacheAd) Name() string                         { return "Cache" }
-func (a *cacheAd) Zero() any                            { return nil }
-func (a *cacheAd) Set(k int, v any, d time.Duration)    { a.c.Set(a.ks.keys[k], v, d) }
-func (a *cacheAd) SetDefault(k int, v any)              { a.c.SetDefault(a.ks.keys[k], v) }
-func (a *cacheAd) SetForever(k int, v any)              { a.c.SetForever(a.ks.keys[k], v) }
-func (a *cacheAd) Get(k int) (any, bool)                { return a.c.Get(a.ks.keys[k]) }
+func (a *cacheAd) Name() string                      { return "Cache" }
+func (a *cacheAd) Zero() any                         { return nil }
+func (a *cacheAd) Set(k int, v any, d time.Duration) { a.c.Set(a.ks.keys[k], v, d) }
+func (a *cacheAd) SetDefault(k int, v any)           { a.c.SetDefault(a.ks.keys[k], v) }
+func (a *cacheAd) SetForever(k int, v any)           { a.c.SetForever(a.ks.keys[k], v) }
+func (a *cacheAd) Get(k int) (any, bool)             { return a.c.Get(a.ks.keys[k]) }
 func (a *cacheAd) GetWithExpiration(k int) (any, time.Time, bool) {
 	return a.c.GetWithExpiration(a.ks.keys[k])
 }
@@ -318,24 +321,25 @@ func (a *cacheAd) RangeNil() { a.c.Range(nil) }
 func (a *cacheAd) Items() map[int]any {
 	it := a.c.Items()
 	r := make(map[int]any, len(it))
-	a.unknown = 0
+	unknown := int64(0)
 	for k, v := range it {
 		i := a.ks.index(k)
 		if i < 0 {
-			a.unknown++
+			unknown++
 			continue
 		}
 		r[i] = v
 	}
+	atomic.StoreInt64(&a.unknown, unknown)
 	return r
 }
-func (a *cacheAd) ItemsUnknown() int                        { return a.unknown }
-func (a *cacheAd) Clear()                                   { a.c.Clear() }
-func (a *cacheAd) Count() int                               { return a.c.Count() }
-func (a *cacheAd) DefaultExpiration() time.Duration         { return a.c.DefaultExpiration() }
-func (a *cacheAd) SetDefaultExpiration(d time.Duration)     { a.c.SetDefaultExpiration(d) }
-func (a *cacheAd) HasEvictedCallback() bool                 { return a.c.EvictedCallback() != nil }
-func (a *cacheAd) Stats() (cache.VerifMapStats, bool)       { return cache.VerifCacheStats(a.c) }
+func (a *cacheAd) ItemsUnknown() int                    { return int(atomic.LoadInt64(&a.unknown)) }
+func (a *cacheAd) Clear()                               { a.c.Clear() }
+func (a *cacheAd) Count() int                           { return a.c.Count() }
+func (a *cacheAd) DefaultExpiration() time.Duration     { return a.c.DefaultExpiration() }
+func (a *cacheAd) SetDefaultExpiration(d time.Duration) { a.c.SetDefaultExpiration(d) }
+func (a *cacheAd) HasEvictedCallback() bool             { return a.c.EvictedCallback() != nil }
+func (a *cacheAd) Stats() (cache.VerifMapStats, bool)   { return cache.VerifCacheStats(a.c) }
 func (a *cacheAd) SetEvictedCallback(f func(int, any)) {
 	if f == nil {
 		a.c.SetEvictedCallback(nil)
@@ -351,7 +355,7 @@ type cacheOfAd[K comparable, V any] struct {
 	in      func(any) V
 	out     func(V) any
 	zero    any
-	unknown int
+	unknown int64
 }
 
 func (a *cacheOfAd[K, V]) Name() string                      { return a.name }
@@ -407,24 +411,27 @@ func (a *cacheOfAd[K, V]) RangeNil() { a.c.Range(nil) }
 func (a *cacheOfAd[K, V]) Items() map[int]any {
 	it := a.c.Items()
 	r := make(map[int]any, len(it))
-	a.unknown = 0
+	unknown := int64(0)
 	for k, v := range it {
 		i := a.ks.index(k)
 		if i < 0 {
-			a.unknown++
+			unknown++
 			continue
 		}
 		r[i] = a.out(v)
 	}
+	atomic.StoreInt64(&a.unknown, unknown)
 	return r
 }
-func (a *cacheOfAd[K, V]) ItemsUnknown() int                    { return a.unknown }
+func (a *cacheOfAd[K, V]) ItemsUnknown() int                    { return int(atomic.LoadInt64(&a.unknown)) }
 func (a *cacheOfAd[K, V]) Clear()                               { a.c.Clear() }
 func (a *cacheOfAd[K, V]) Count() int                           { return a.c.Count() }
 func (a *cacheOfAd[K, V]) DefaultExpiration() time.Duration     { return a.c.DefaultExpiration() }
 func (a *cacheOfAd[K, V]) SetDefaultExpiration(d time.Duration) { a.c.SetDefaultExpiration(d) }
 func (a *cacheOfAd[K, V]) HasEvictedCallback() bool             { return a.c.EvictedCallback() != nil }
-func (a *cacheOfAd[K, V]) Stats() (cache.VerifMapStats, bool)   { return cache.VerifCacheOfStats[K, V](a.c) }
+func (a *cacheOfAd[K, V]) Stats() (cache.VerifMapStats, bool) {
+	return cache.VerifCacheOfStats[K, V](a.c)
+}
 func (a *cacheOfAd[K, V]) SetEvictedCallback(f func(int, any)) {
 	if f == nil {
 		a.c.SetEvictedCallback(nil)
@@ -511,6 +518,8 @@ func newCache(sp cacheSpec) cacheAPI {
 		return newCacheOfAd[int, val](sp, mkInt, inVal, outVal, val{})
 	case "CacheOf[skey,val]":
 		return newCacheOfAd[skey, val](sp, mkSkey, inVal, outVal, val{})
+	case "CacheOf[int,*payload]":
+		return newCacheOfAd[int, *payload](sp, mkInt, inPayload, outPayload, nil)
 	}
 	panic("unknown cache flavor " + sp.Flavor)
 }
@@ -533,4 +542,31 @@ func (sp cacheSpec) effective() (defExp, interval time.Duration, hasCb bool) {
 		hasCb = sp.OptMask&4 != 0 && sp.Callback != nil
 		return
 	}
+}
+
+func cacheVerifLocked(raw any) int         { return cache.VerifLockedBuckets(raw) }
+func cacheVerifStructure(raw any) []string { return cache.VerifStructure(raw) }
+
+// payload is the value type of the race-detector workloads: initialised with
+// plain stores right before being handed to the container, read with plain
+// loads by whoever obtains it.
+type payload struct {
+	key  int
+	seq  int64
+	data [4]uint64
+	sum  uint64
+}
+
+func inPayload(v any) *payload {
+	if v == nil {
+		return nil
+	}
+	return v.(*payload)
+}
+
+func outPayload(p *payload) any {
+	if p == nil {
+		return nil
+	}
+	return p
 }
